@@ -265,8 +265,10 @@ type c20Gen struct {
 	nid int
 }
 
-func (g *c20Gen) pick(label string, xs []string) string { return rapid.SampledFrom(xs).Draw(g.t, label) }
-func (g *c20Gen) n(label string, lo, hi int) int        { return rapid.IntRange(lo, hi).Draw(g.t, label) }
+func (g *c20Gen) pick(label string, xs []string) string {
+	return rapid.SampledFrom(xs).Draw(g.t, label)
+}
+func (g *c20Gen) n(label string, lo, hi int) int { return rapid.IntRange(lo, hi).Draw(g.t, label) }
 
 func (g *c20Gen) arg() {
 	switch g.n("argkind", 0, 9) {
